@@ -1145,6 +1145,45 @@ func factHolds(in ssa.Instruction, holds func(cond ssa.Value, truth bool) bool) 
 			return true
 		}
 	}
+	return pathFactHolds(in, holds)
+}
+
+// pathFactHolds is the path-sensitive fallback of factHolds: the fact is not a single
+// dominating branch, but every path to the instruction takes some branch that
+// establishes it (conditions merged through phis — a || b, an inlined predicate, a
+// flag variable — are resolved along each path; branches whose condition folds on
+// the path are pruned).
+func pathFactHolds(in ssa.Instruction, holds func(cond ssa.Value, truth bool) bool) bool {
+	f := in.Parent()
+	if f == nil || len(f.Blocks) == 0 || len(f.Blocks) > 400 {
+		return false
+	}
+	paths, complete := enumPaths(f, in, 3000)
+	if !complete || len(paths) == 0 {
+		return false
+	}
+	for _, p := range paths {
+		ok := false
+		for _, d := range p.decs {
+			if holds(d.Cond, d.Truth) {
+				ok = true
+				break
+			}
+		}
+		if !ok {
+			return false
+		}
+	}
+	return true
+}
+
+// isLoopHeader: the block has a back edge coming in.
+func isLoopHeader(b *ssa.BasicBlock) bool {
+	for _, p := range b.Preds {
+		if b.Dominates(p) {
+			return true
+		}
+	}
 	return false
 }
 
@@ -1343,7 +1382,15 @@ type factOracle func(holds func(cond ssa.Value, truth bool) bool) bool
 // predecessor the value comes in from, plus that predecessor's own branch
 // decision towards the join.
 func phiLeaves(v ssa.Value, at ssa.Instruction, fn func(leaf ssa.Value, fact factOracle)) {
+	phiLeavesA(v, at, func(leaf ssa.Value, fact factOracle, _ []ssa.Value) { fn(leaf, fact) })
+}
+
+// phiLeavesA also passes the merges the leaf flows through on its way to v (a fact
+// stated about one of them at the use holds for the leaf on that alternative).
+func phiLeavesA(v ssa.Value, at ssa.Instruction, fn func(leaf ssa.Value, fact factOracle, aliases []ssa.Value)) {
+	at0 := at
 	seen := map[*ssa.Phi]bool{}
+	var chain []ssa.Value
 	var rec func(v ssa.Value, at ssa.Instruction, extra []Fact)
 	rec = func(v ssa.Value, at ssa.Instruction, extra []Fact) {
 		ph, ok := v.(*ssa.Phi)
@@ -1354,10 +1401,12 @@ func phiLeaves(v ssa.Value, at ssa.Instruction, fn func(leaf ssa.Value, fact fac
 						return true
 					}
 				}
-				return factHolds(at, holds)
-			})
+				return factHolds(at, holds) || (at0 != at && factHolds(at0, holds))
+			}, append([]ssa.Value(nil), chain...))
 			return
 		}
+		chain = append(chain, ph)
+		defer func() { chain = chain[:len(chain)-1] }()
 		seen[ph] = true
 		b := ph.Block()
 		for i, e := range ph.Edges {
@@ -1388,4 +1437,54 @@ func fieldAddrOf(st *ssa.Store) *ssa.FieldAddr {
 		}
 	}
 	panic("store does not write through a field address")
+}
+
+// allPathsTo: pred holds on every (acyclic, feasible) path from the function entry to the instruction.
+func allPathsTo(in ssa.Instruction, pred func(p *pathCtx) bool) bool {
+	f := in.Parent()
+	if f == nil || len(f.Blocks) == 0 || len(f.Blocks) > 400 {
+		return false
+	}
+	paths, complete := enumPaths(f, in, 3000)
+	if !complete || len(paths) == 0 {
+		return false
+	}
+	for _, p := range paths {
+		if !pred(p) {
+			return false
+		}
+	}
+	return true
+}
+
+// constructionCopy: the store initialises a field of an object that this function has just
+// allocated (composite literal / new) with the value of the same field of another object of
+// the same type — the field-wise spelling of a struct copy. Such a store creates no new
+// writer of existing state.
+func constructionCopy(st *ssa.Store) bool {
+	dst := unwrapAddr(st.Addr)
+	if _, fresh := dst.Base.(*ssa.Alloc); !fresh || len(dst.Fields) == 0 || dst.Elem {
+		return false
+	}
+	ld, ok := st.Val.(*ssa.UnOp)
+	if !ok || ld.Op != token.MUL {
+		return false
+	}
+	src := unwrapAddr(ld.X)
+	if _, alsoFresh := src.Base.(*ssa.Alloc); alsoFresh || src.Elem || len(src.Fields) != len(dst.Fields) {
+		return false
+	}
+	for i := range src.Fields {
+		if src.Fields[i] != dst.Fields[i] {
+			return false
+		}
+	}
+	return true
+}
+
+// underConstruction: the store writes a field of an object this function has just allocated.
+func underConstruction(st *ssa.Store) bool {
+	dst := unwrapAddr(st.Addr)
+	_, fresh := dst.Base.(*ssa.Alloc)
+	return fresh && len(dst.Fields) > 0 && !dst.Elem
 }
